@@ -728,6 +728,14 @@ func (w *inspector) object(o Object, depth int) {
 			return
 		}
 		w.out.WriteString(v.Inspect())
+	case Function:
+		if w.source && v.Name != nil {
+			// Saved as (part of) the value of a variable: without its name, [func f(x){...}] would also (re)define f when loaded.
+			v.Name = nil
+			v.Lambda = true
+			SetCacheKey(&v) // its printed form.
+		}
+		w.out.WriteString(v.Inspect())
 	default:
 		w.out.WriteString(o.Inspect())
 	}
